@@ -107,6 +107,18 @@ def parseKind (s : String) : Option Kind :=
     | _, _, _ => none
   | _ => none
 
+/-- A due clock with a representation suffix (`17w` wall-clock reading only, `17u` UTC, `17e` / `17a` other time
+zones, with or without a monotonic reading): the harness hands the *same instant* to `ExecuteAt` as a differently
+represented `time.Time`.  The model has instants only, so the suffix is dropped: heap order, timers and every
+comparison of scheduled times in the code must go by the instant. -/
+def parseDueRep (s : String) : Option Nat :=
+  match s.toList.reverse with
+  | c :: rest =>
+    if (c == 'w' || c == 'u' || c == 'e' || c == 'a') && !rest.isEmpty && rest.all Char.isDigit then
+      some (rest.reverse.foldl (fun n d => 10 * n + (d.toNat - '0'.toNat)) 0)
+    else none
+  | [] => none
+
 /-- Due clocks of the sequential op lines: a number, or an instant far away from the session — `z` (zero
 `time.Time`) and `y1600`: clock 0, i.e. due at once and before every ordinary due clock; `y2300`, `n300` (now + 300
 years), `y9999`, `u62` (`time.Unix(1<<62, 0)`): clocks that a session never reaches. -/
@@ -118,7 +130,10 @@ def parseDue (s : String) : Option Nat :=
   | "n300" => some 1000003
   | "y9999" => some 1000005
   | "u62" => some 1000007
-  | _ => s.toNat?
+  | _ =>
+    match s.toNat? with
+    | some n => some n
+    | none => parseDueRep s
 
 /-- The flags of a `shutdown` line as the harness passes them to the code: the or of the source's constants. -/
 def flagMask (s : String) : Nat :=
